@@ -62,8 +62,15 @@ def build(tier, seed):
     chk.fallback('B4.c10.write_sequences', lambda: replay_c10(None),
                  '15 successful writes incl. corner cases (empty trait / aggregate lists, clearing allocations) + every GET + one refused write, at microversions 1.39 / 1.19 / 1.12; generations compared before/after', always=True)
     leafs.add(chk, ['cas.consumer'])
+    # _set_allocations bumps the generation of every provider and consumer
+    # the request names exactly once, inside the write transaction, and
+    # nobody else's (inductive proof of its two generation loops, shared
+    # with C01)
+    import C01
+    chk.script('set_allocations', C01.script_set,
+               ['placement/objects/allocation.py:_set_allocations'])
     mutators.add(chk)
-    chk.keep_prefixes = chk.keep_prefixes + ('mut.',)
+    chk.keep_prefixes = chk.keep_prefixes + ('mut.', 'C01.set.')
     return chk
 
 
